@@ -3,7 +3,7 @@
    accounting of io.c, one stripe of scrub).  Lemmas: coq/Fault/FaultProofs.v.  Only statements here. *)
 From Coq Require Import NArith ZArith List Bool Arith.
 From Snap.Array Require Import ArrayDefs SyncModel SyncProofsDefs SyncProofsStripe.
-From Snap.Fault Require Import FaultModel FaultProofs FaultWitness.
+From Snap.Fault Require Import FaultModel FaultProofs FaultWitness SkipWitness ScrubBadMark.
 Import ListNotations.
 
 (* sync_loop_w without write faults is the sync loop of C06 (the model the C06 check replays on the binary) *)
@@ -71,6 +71,16 @@ Theorem scrub_read_error_safe :
     sc_info r = mkInfo (i_time inf) true (i_rehash inf) (i_justsynced inf) /\ 0 < sc_nio r.
 Proof. exact scrub_read_error_safe. Qed.
 Print Assumptions scrub_read_error_safe.
+
+(* scrub: a bad mark is cleared only by a complete, clean verification: every parity read succeeded and compared equal (so a stripe
+   that is not fully synced and whose parity differs, or whose parity was not read, keeps the mark) *)
+Theorem scrub_clears_bad_only_verified :
+  forall limit iob now inf disks pars,
+    let r := scrub_stripe limit iob now inf disks pars in
+    i_bad inf = true -> sc_bail r = false -> i_bad (sc_info r) = false ->
+    (forall p, In p pars -> p = SpOk true) /\ sc_info r = mkInfo now false false false.
+Proof. exact scrub_clears_bad_only_verified. Qed.
+Print Assumptions scrub_clears_bad_only_verified.
 
 (* ---- parity write errors ----
    The C08 statement for writes, at full strength, for every fault sequence (wf), io mode (single-thread / threaded n) and
@@ -199,6 +209,32 @@ Example C08_scrub_read_error_nonvacuous :
   let r := scrub_stripe 100 0 77 (mkInfo 8 false false true) [mkST true false true false true (SdOk true); mkST true false true false true SdIoCont] [SpOk true] in
   sc_bail r = false /\ sc_nio r = 1 /\ i_bad (sc_info r) = true /\ i_time (sc_info r) = 8%N.
 Proof. exact scrub_read_error_nonvacuous. Qed.
+Example C08_scrub_bad_touched_stale_keeps_mark :
+  let r := scrub_stripe 100 0 77 (mkInfo 8 true false true)
+             [mkST true false true true true (SdOk true); mkST true false true false true (SdOk true)] [SpOk false] in
+  sc_info r = mkInfo 8 true false true /\ sc_nerr r = 1 /\ sc_nio r = 0 /\ sc_nsilent r = 0.
+Proof. exact scrub_bad_touched_stale_keeps_mark. Qed.
+Example C08_scrub_unsynced_parity_eio_marks_bad :
+  let r := scrub_stripe 100 0 77 (mkInfo 8 false false true)
+             [mkST true true true false false (SdOk true); mkST true false true false true (SdOk true)] [SpIoCont] in
+  sc_info r = mkInfo 8 true false true /\ sc_nio r = 1 /\ sc_bail r = false.
+Proof. exact scrub_unsynced_parity_eio_marks_bad. Qed.
+(* writer errors are collected at every visited stripe, also at those that need no parity update (write_error_safe and
+   write_error_exit_* quantify over any stripe list; this is the instance the check replays: one written stripe, seven no-update) *)
+Example C08_skip_stripes_not_written :
+  forallb (fun pos => match so_write (sync_stripe hz 1024 1 wo 7 0 kc [PJunk 9] kfs [] pos) with None => true | Some _ => false end) (seq 1 7) = true /\
+  so_write (sync_stripe hz 1024 1 wo 7 0 kc [PJunk 9] kfs [] 0) <> None.
+Proof. exact skip_stripes_not_written. Qed.
+Example C08_write_error_collected_at_skipped_stripes :
+  forallb (fun n => let r := krun (Threaded n) WEio in
+     (length (w_fpos r) =? 1) && run_failing (w_run r) && (ro_nio (w_run r) =? 1) && (length (w_lost r) =? 0) &&
+     negb (recorded_healthy (ro_content (w_run r)) 0) && recorded_healthy (ro_content (w_run r)) 1 && recorded_healthy (ro_content (w_run r)) 7)
+    [2; 3; 8; 128] = true /\
+  (let r := krun (Threaded 3) WErr in ro_bailed (w_run r) = true /\ run_failing (w_run r) = true /\ w_iters r = 1 /\
+     recorded_healthy (ro_content (w_run r)) 0 = false) /\
+  (let r := krun (Threaded 3) WShort in ro_bailed (w_run r) = true /\ run_failing (w_run r) = true /\
+     recorded_healthy (ro_content (w_run r)) 0 = false /\ nth 0 (nth 0 (ro_parity (w_run r)) []) PNone = PJunk 0).
+Proof. exact write_error_collected_at_skipped_stripes. Qed.
 Example C08_partial_hypothesis_satisfiable :
   let r := wrun (Threaded 3) 3 in length (w_lost r) < w_nfail r.
 Proof. vm_compute. apply le_n. Qed.
